@@ -22,6 +22,7 @@ type c03Gen struct {
 	b      strings.Builder
 	scopes []map[string]bool // static approximation of declared names
 	funcs  []c03Fun
+	dead   []c03Fun // functions whose declaring scope has ended
 }
 
 type c03Fun struct {
@@ -47,6 +48,7 @@ func (g *c03Gen) push() { g.scopes = append(g.scopes, map[string]bool{}) }
 func (g *c03Gen) pop() {
 	g.scopes = g.scopes[:len(g.scopes)-1]
 	for len(g.funcs) > 0 && g.funcs[len(g.funcs)-1].depth > len(g.scopes) {
+		g.dead = append(g.dead, g.funcs[len(g.funcs)-1])
 		g.funcs = g.funcs[:len(g.funcs)-1]
 	}
 }
@@ -94,6 +96,14 @@ func (g *c03Gen) stmt(ind string, depth int, inFunc bool) {
 	switch g.pick("stmt", choices) {
 	case 0:
 		n := g.nameFor(true)
+		if g.pick("declareTwo", 4) == 0 {
+			// one ধরি declaring two names
+			n2 := c03Vars[(indexOf(c03Vars, n)+1+g.pick("second", len(c03Vars)-1))%len(c03Vars)]
+			w("%s %s = %s, %s = %s;", bn.KwVar, n, g.u(), n2, g.u())
+			g.scopes[len(g.scopes)-1][n] = true
+			g.scopes[len(g.scopes)-1][n2] = true
+			return
+		}
 		switch g.pick("initform", 6) {
 		case 0:
 			w("%s %s;", bn.KwVar, n) // declared without a value: holds nil
@@ -108,6 +118,21 @@ func (g *c03Gen) stmt(ind string, depth int, inFunc bool) {
 	case 2:
 		w("%s %s;", bn.KwPrint, g.nameFor(false))
 	case 3:
+		if len(g.dead) > 0 && g.pick("callDead", 5) == 0 {
+			// a function whose declaring scope has ended: its name must be gone (or re-declarable)
+			f := g.dead[g.pick("dead", len(g.dead))]
+			if g.pick("redeclare", 2) == 0 {
+				w("%s %s = %s;", bn.KwVar, f.name, g.u())
+				w("%s %s;", bn.KwPrint, f.name)
+			} else {
+				args := make([]string, f.arity)
+				for i := range args {
+					args[i] = g.u()
+				}
+				w("%s %s(%s);", bn.KwPrint, f.name, strings.Join(args, ", "))
+			}
+			return
+		}
 		if len(g.funcs) > 0 {
 			f := g.funcs[g.pick("fun", len(g.funcs))]
 			args := make([]string, f.arity)
@@ -270,7 +295,7 @@ func (c *Ctx) c03Program(s *Sub, sub, src string) {
 	}
 }
 
-var c03Small = map[string]int{"twoHeaderVars": 2, "name2": 1, "initform": 3, "falsy": 2, "name": 2, "bias": 2, "n": 1, "truth": 2, "else": 2, "braced": 2, "arity": 2, "param": 2, "ret": 2, "global": 2, "fun": 1}
+var c03Small = map[string]int{"declareTwo": 2, "second": 1, "callDead": 2, "dead": 1, "redeclare": 2, "twoHeaderVars": 2, "name2": 1, "initform": 3, "falsy": 2, "name": 2, "bias": 2, "n": 1, "truth": 2, "else": 2, "braced": 2, "arity": 2, "param": 2, "ret": 2, "global": 2, "fun": 1}
 
 func TestC03(t *testing.T) {
 	Main(t, "C03", func(c *Ctx) {
